@@ -363,6 +363,7 @@ func runJob(h *Harness, params []int, tier string) *JobResult {
 	}
 	if progress {
 		fmt.Fprintln(os.Stderr, "feasibility query sites:", feasSites)
+		fmt.Fprintln(os.Stderr, "merge failures:", mergeFails)
 	}
 	res.SolverMs = theSolver.time.Milliseconds()
 	res.SolverErrors = theSolver.errors
